@@ -470,7 +470,9 @@ def c3_hash_tables(fb, rep):
         for b, i, e in f.events():
             if e.get('k') == 'asg' and e.get('op') == '^=' and is_hash(e.get('l')) and 'whiteHashKey' in show(e.get('r')):
                 g = G.guards_of(f, set(f.blocks), b)
-                rep.ob(clause, 'K4 guard', '%s: side key xored exactly when white is to move' % nm, g == ['whiteMove'], R.site(f, e), str(g), f.sname)
+                wtm = lambda v_: (lambda t_: ('v', v_) if (t_.get('k') == 'mem' and ap(t_) == 'this.whiteMove') else None)
+                exactly = G.excluded_under(f, b, wtm(0)) and not G.excluded_under(f, b, wtm(1))
+                rep.ob(clause, 'K4 guard', '%s: side key xored exactly when white is to move' % nm, exactly, R.site(f, e), str(g), f.sname)
         # piece-square keys: same table indexed [piece][square]
         ps = [s for s in sc if 'psHashKeys' in s or s == 'key']
         rep.ob(clause, 'K10 sibling agreement', '%s hashes every square with psHashKeys[piece][square]' % nm, bool(ps), f.where, str(sorted(sc)), f.sname)
